@@ -1551,9 +1551,11 @@ static void gen(rng &r, const std::string &tier)
         DT ts, tv;
         dt_of("str", ts); dt_of("V(u64)", tv);
         DV big = DV::str(gen_bytes(r, 65535));
-        for (size_t c : {(size_t)65537, (size_t)65536, (size_t)2, (size_t)1, (size_t)40000}) printf("bwc str %s %zu\n", show(ts, big).c_str(), c);
+        for (size_t c : {(size_t)65537, (size_t)65536, (size_t)2, (size_t)1, (size_t)40000})
+            if (th || c == 65536 || c == 2) printf("bwc str %s %zu\n", show(ts, big).c_str(), c);
         DV bv = vec_of(6, 40000, r, false);
-        for (size_t c : {(size_t)320002, (size_t)320001, (size_t)65536}) printf("bwc V(u64) %s %zu\n", show(tv, bv).c_str(), c);
+        for (size_t c : {(size_t)320002, (size_t)320001, (size_t)65536})
+            if (th || c == 320001) printf("bwc V(u64) %s %zu\n", show(tv, bv).c_str(), c); // quick: the one-byte-short buffer only
     }
     // (9) round 3
     puts("consts");
